@@ -4,6 +4,7 @@ import (
 	"fmt"
 	"math/big"
 	"os"
+	"path/filepath"
 	"strings"
 	"unicode"
 )
@@ -87,6 +88,7 @@ type GhostAt struct {
 	Src    string
 	When   string // "before" | "after"
 	Assert *Clause
+	Assume bool // anchored assumption (listed in evidence), not an obligation
 }
 
 type FuncContract struct {
@@ -168,11 +170,12 @@ type ContractDB struct {
 	Lemmas     []*Lemma
 	GhostVars  map[string]*GhostVar
 	EffectFree []string
+	EffectFreeProp map[string]string // pattern -> property it is scoped to ("" = all): taken from the file name …_cNN.go
 	Files      []string
 }
 
 func NewContractDB() *ContractDB {
-	return &ContractDB{Funcs: map[string][]*FuncContract{}, FileErrs: map[string]error{}, SpecFuncs: map[string]*SpecFunc{}, SpecTypes: map[string]*SpecType{}, GhostVars: map[string]*GhostVar{}}
+	return &ContractDB{Funcs: map[string][]*FuncContract{}, FileErrs: map[string]error{}, EffectFreeProp: map[string]string{}, SpecFuncs: map[string]*SpecFunc{}, SpecTypes: map[string]*SpecType{}, GhostVars: map[string]*GhostVar{}}
 }
 
 // ---------------------------------------------------------------------------------------------
@@ -885,6 +888,32 @@ func (db *ContractDB) ParseFile(path string, pkgPath string) error {
 			if cur == nil {
 				return fail(d, fmt.Errorf("outside func"))
 			}
+			if d.kw == "assume" && (strings.HasPrefix(d.text, "after ") || strings.HasPrefix(d.text, "before ") || strings.HasPrefix(d.text, "at ")) {
+				// anchored assumption: assume after call X: [label] expr
+				t := strings.TrimSpace(d.text)
+				when := "after"
+				switch {
+				case strings.HasPrefix(t, "before "):
+					when = "before"
+					t = strings.TrimPrefix(t, "before ")
+				case strings.HasPrefix(t, "after "):
+					t = strings.TrimPrefix(t, "after ")
+				case strings.HasPrefix(t, "at "):
+					t = strings.TrimPrefix(t, "at ")
+				}
+				j := anchorColon(t)
+				if j < 0 {
+					return fail(d, fmt.Errorf("assume after ANCHOR: [label] expr"))
+				}
+				anchor := strings.TrimSpace(t[:j])
+				label, rest := splitLabel(t[j+1:])
+				e, err := parseExprString(rest)
+				if err != nil {
+					return fail(d, err)
+				}
+				cur.Asserts = append(cur.Asserts, GhostAt{Anchor: anchor, When: when, Assume: true, Assert: &Clause{Label: label, E: e, Src: rest, File: path, Line: d.line}})
+				break
+			}
 			label, rest := splitLabel(d.text)
 			props, rest := splitProps(rest)
 			assumed := false
@@ -1148,7 +1177,13 @@ func (db *ContractDB) ParseFile(path string, pkgPath string) error {
 			db.OwnsList = append(db.OwnsList, ow)
 		case "effectfree":
 			for _, f := range strings.Fields(d.text) {
-				db.EffectFree = append(db.EffectFree, f)
+				scope := fileProp(path)
+				if old, seen := db.EffectFreeProp[f]; seen && old != scope {
+					scope = old + "," + scope // declared by several properties
+				} else if !seen {
+					db.EffectFree = append(db.EffectFree, f)
+				}
+				db.EffectFreeProp[f] = scope
 			}
 		}
 	}
@@ -1198,6 +1233,26 @@ func (db *ContractDB) Validate() error {
 		}
 	}
 	return nil
+}
+
+// fileProp: the property a contract file belongs to by its name (verif_contracts_c12.go, c15_math_big.spec), "" if none.
+func fileProp(path string) string {
+	base := strings.ToLower(filepath.Base(path))
+	base = strings.TrimSuffix(strings.TrimSuffix(base, ".go"), ".spec")
+	for _, part := range strings.Split(base, "_") {
+		if len(part) >= 3 && part[0] == 'c' && part[1] >= '0' && part[1] <= '9' {
+			digits := true
+			for _, c := range part[1:] {
+				if c < '0' || c > '9' {
+					digits = false
+				}
+			}
+			if digits {
+				return strings.ToUpper(part)
+			}
+		}
+	}
+	return ""
 }
 
 func splitTop(s string, sep byte) []string {
